@@ -10,9 +10,12 @@ DEFAULT_NA = "check not built yet (planned, see DESIGN.md section 6 build order)
 
 def main():
     checks, engines = [], {}
+    ready = set(json.loads((VERIF / "ready.json").read_text()))
     for f in sorted((VERIF / "checks.d").glob("C*.json")):
         c = json.loads(f.read_text())
         pid = c["property_id"]
+        if pid not in ready:
+            continue
         checks.append({
             "property_id": pid,
             "quick_cmd": f"./vcheck {pid} --tier quick",
